@@ -1,0 +1,49 @@
+// This Source Code Form is subject to the terms of the Mozilla Public
+// License, v. 2.0. If a copy of the MPL was not distributed with this
+// file, You can obtain one at http://mozilla.org/MPL/2.0/.
+
+//go:build verif
+
+package runtime
+
+import (
+	"github.com/cosi-project/runtime/pkg/controller/runtime/internal/cache"
+	"github.com/cosi-project/runtime/pkg/controller/runtime/internal/dependency"
+	"github.com/cosi-project/runtime/pkg/controller/runtime/internal/qruntime"
+	"github.com/cosi-project/runtime/pkg/controller/runtime/options"
+)
+
+// Re-exports of internal packages for the external verification harness (build tag verif only).
+
+// VerifQueue is the internal reconcile queue.
+type VerifQueue[K comparable, V any] = qruntime.VerifQueue[K, V]
+
+// VerifItem is the internal reconcile queue item.
+type VerifItem[K comparable, V any] = qruntime.VerifItem[K, V]
+
+// VerifPriorityQueue is the internal priority queue.
+type VerifPriorityQueue[K comparable, V any] = qruntime.VerifPriorityQueue[K, V]
+
+// VerifSliceSet is the internal slice set.
+type VerifSliceSet[T comparable] = qruntime.VerifSliceSet[T]
+
+// VerifNewQueue creates the internal reconcile queue.
+func VerifNewQueue[K comparable, V any]() *VerifQueue[K, V] {
+	return qruntime.VerifNewQueue[K, V]()
+}
+
+// VerifDatabase is the internal dependency database.
+type VerifDatabase = dependency.Database
+
+// VerifNewDatabase creates the internal dependency database.
+func VerifNewDatabase() (*VerifDatabase, error) {
+	return dependency.NewDatabase()
+}
+
+// VerifResourceCache is the internal resource cache.
+type VerifResourceCache = cache.ResourceCache
+
+// VerifNewResourceCache creates the internal resource cache.
+func VerifNewResourceCache(resources []options.CachedResource) *VerifResourceCache {
+	return cache.NewResourceCache(resources)
+}
